@@ -374,6 +374,10 @@ FIXED_CLI = [
     ('int a = -0x100000000u > 0; long b = 0x7fffffffffffffffu / -1; long c = 040000000000u % -3; long d = -0x100000000u >> 60;\n'
      'int e = -0b100000000000000000000000000000000U > 0; int f = -4294967296u > 0; long g = -0x100000000 >> 60; int h = -0x100000000 > 0;\n',
      [('a', 4, 1), ('b', 8, 0), ('c', 8, 4294967296), ('d', 8, 15), ('e', 4, 1), ('f', 4, 1), ('g', 8, -1), ('h', 4, 0)]),
+    # arithmetic right shift of negative constants of every signed width
+    ('long a = -8L >> 1; long long b = (-0x7fffffffffffffffLL - 1) >> 62; int c = -8 >> 1; long d = -1L >> 63; long e = (long)-16 >> 2 >> 1; int f = (-0x7fffffff - 1) >> 31;\n'
+     'char g[(-8L >> 1) + 5]; long h = sizeof g; enum { SK = -64L >> 4 }; long i = SK;\n',
+     [('a', 8, -4), ('b', 8, -2), ('c', 4, -4), ('d', 8, -1), ('e', 8, -2), ('f', 4, -1), ('h', 8, 1), ('i', 8, -4)]),
     # offsetof with index designators after a non-zero offset and with nested indices: offsets accumulate
     ('struct S { int pad; struct { int x; long y; } arr[4]; char m[3][5]; struct { struct { short v[6]; } in[3]; } n[2]; union { int i; short w[8]; } s; };\n'
      'long a = __builtin_offsetof(struct S, arr[2].y), b = __builtin_offsetof(struct S, m[1][2]), c = __builtin_offsetof(struct S, n[1].in[2].v[3]),\n'
